@@ -1,6 +1,7 @@
 import Mp.ProofsStr2
 import Mp.ProofsStr
 import Mp.ProofsRepl
+import Mp.NumeralProofs
 /-! C18 — string functions mean what their names say: property theorems (proved in Mp.ProofsStr). -/
 #print axioms Mp.isInfix_iff
 #print axioms Mp.contains_true_iff
@@ -25,3 +26,6 @@ import Mp.ProofsRepl
 #print axioms Mp.right_drop_scaled
 #print axioms Mp.trimLeft_scaled
 #print axioms Mp.trimRight_scaled
+#print axioms Mp.Dec.ofString_alphabet
+#print axioms Mp.Dec.not_numeral_of_foreign_byte
+#print axioms Mp.Dec.empty_not_numeral
